@@ -138,6 +138,43 @@ func c07ExtraOracle(before, after []*index.Reader) string {
 			)
 		}
 	}
+	// filters built from the attributes and the payload of visible streams, combined with OR / NOT: the merge
+	// must not change which streams they select (ports, hosts, byte counts, protocol, ids, payload bytes)
+	ObsWithPayload, err := vidx.ObserveStack(before, true)
+	if err == nil {
+		ids := vidx.SortedIDs(ObsWithPayload)
+		picks := []uint64{}
+		if n := len(ids); n > 0 {
+			picks = append(picks, ids[0], ids[n/2], ids[n-1])
+		}
+		hexRe := func(b []byte) string {
+			var sb strings.Builder
+			for _, c := range b {
+				fmt.Fprintf(&sb, `\x%02x`, c)
+			}
+			return sb.String()
+		}
+		for _, id := range picks {
+			o := ObsWithPayload[id]
+			add := func(text string) {
+				queries = append(queries, struct {
+					text  string
+					limit uint
+				}{text + " sort:id", 0})
+			}
+			add(fmt.Sprintf("cport:%d", o.CPort))
+			add(fmt.Sprintf("-sport:%d cbytes:%d:", o.SPort, o.ClientBytes))
+			add(fmt.Sprintf("chost:%s or id:%d:", o.Client, id))
+			add(fmt.Sprintf("host:%s -id:%d", o.Server, id))
+			add(fmt.Sprintf("protocol:%s sbytes::%d", strings.ToLower(o.Protocol), o.ServerBytes))
+			for dir, key := range []string{"cdata", "sdata"} {
+				if pl := o.Payload[dir]; len(pl) >= 3 && len(pl) < 70000 {
+					add(fmt.Sprintf(`%s:"%s"`, key, hexRe(pl[len(pl)-3:])))
+					add(fmt.Sprintf(`-%s:"%s"`, key, hexRe(pl[:2])))
+				}
+			}
+		}
+	}
 	for _, q := range queries {
 		a, err := run(before, q.text, q.limit)
 		if err != nil {
